@@ -163,7 +163,9 @@ int main()
 
   // ---------- (a)+(b) simulators
   const std::vector<Struc> poolTB = {{ECov::SPHERICAL, 1.}, {ECov::EXPONENTIAL, 1.}, {ECov::GAUSSIAN, 1.}, {ECov::CUBIC, 1.}, {ECov::MATERN, 0.5},
-                                     {ECov::MATERN, 1.5}, {ECov::STABLE, 0.75}, {ECov::STABLE, 1.5}, {ECov::SINCARD, 1.}};
+                                     {ECov::MATERN, 1.5}, {ECov::STABLE, 0.75}, {ECov::STABLE, 1.5}, {ECov::SINCARD, 1.},
+                                     // smoothness below 1/2: simulated as a mixture of exponential covariances with a random scale (Beta law)
+                                     {ECov::MATERN, 0.375}, {ECov::MATERN, 0.1875}, {ECov::STABLE, 0.5}};
   for (long ic = 0; ic < ncfg; ic++)
   {
     int ndim = (int)rng.range(1, 3);
@@ -174,6 +176,9 @@ int main()
       int nvar = (int)rng.range(1, 3);
       std::string mtext;
       Model* model = genModelTB(rng, ndim, nvar, mtext, st, false, poolTB);
+      // the first two configurations of every run: a single Matern structure with smoothness below 1/2 (one variable),
+      // so that the mixture-of-exponentials construction is always examined on its own
+      if (ic < 2 && model != nullptr) { delete model; nvar = 1; model = Model::createFromParam(ECov::MATERN, 5. + (double)rng.range(0, 2), 1., ic == 0 ? 0.375 : 0.1875); st.hit("tb_devoted_matern_below_half"); }
       if (model != nullptr)
       {
         VectorDouble means(nvar); for (int a = 0; a < nvar; a++) means[a] = rng.dyadic(-3, 3, 2);
@@ -202,6 +207,8 @@ int main()
         int nbtuba = (int)rng.range(60, 200);
         int rc = simtub(nullptr, db, model, nullptr, (int)nsim, seed, nbtuba);
         std::string what = "turning_bands";
+        // a Matern structure with smoothness below 1/2 goes through the migration process with a random (Beta) scale
+        { bool lownu = false; for (int is = 0; is < model->getCovaNumber(); is++) if (model->getCovaType(is) == ECov::MATERN && model->getCova(is)->getParam() < 0.5) lownu = true; if (lownu) { what += ":lownu"; st.hit("tb_matern_below_half"); } }
         if (nvar > 1) what += eigenRotated(model) ? ":multi:rot" : ":multi:sym";
         if (rc == 0)
         {
